@@ -17,6 +17,7 @@ def _process_function(fn):
     while True:
         loads, stores = {}, {}
         nested_names = set()
+        simple = {}  # name -> number of stores that are `name = <expr>` statements whose next sibling reads the name exactly once
 
         def scan(node, nested):
             for c in ast.iter_child_nodes(node):
@@ -26,13 +27,39 @@ def _process_function(fn):
                     if inner:
                         nested_names.add(c.id)
                 elif isinstance(c, ast.arg):
-                    stores.setdefault(c.arg, []).append(c)
-                    stores.setdefault(c.arg, []).append(c)  # parameters are never temporaries
+                    stores.setdefault(c.arg, []).extend([c, c])  # parameters are never temporaries
                 elif isinstance(c, (ast.Global, ast.Nonlocal)):
                     for nm in c.names:
                         stores.setdefault(nm, []).extend([c, c])
+                elif isinstance(c, ast.AugAssign) and isinstance(c.target, ast.Name):
+                    loads.setdefault(c.target.id, []).extend([c, c])  # `x op= e` reads x as well: never a single-use temporary
+                elif isinstance(c, (ast.MatchAs, ast.MatchStar)) and c.name:
+                    stores.setdefault(c.name, []).extend([c, c])
                 scan(c, inner)
         scan(fn, False)
+
+        def blocks_of(node):
+            for f in ("body", "orelse", "finalbody"):
+                b = getattr(node, f, None)
+                if isinstance(b, list) and b and isinstance(b[0], ast.stmt):
+                    yield b
+            for h in getattr(node, "handlers", []) or []:
+                yield h.body
+            for c in getattr(node, "cases", []) or []:
+                yield c.body
+
+        def count_simple(blk):
+            for i, st in enumerate(blk):
+                if isinstance(st, ast.Assign) and len(st.targets) == 1 and isinstance(st.targets[0], ast.Name) and i + 1 < len(blk) and not isinstance(blk[i + 1], COMPOUND):
+                    x = st.targets[0].id
+                    uses = [y for y in ast.walk(blk[i + 1]) if isinstance(y, ast.Name) and y.id == x and isinstance(y.ctx, ast.Load)]
+                    self_ref = any(isinstance(y, ast.Name) and y.id == x and isinstance(y.ctx, ast.Load) for y in ast.walk(st.value))
+                    if len(uses) == 1 and not self_ref:
+                        simple[x] = simple.get(x, 0) + 1
+                if not isinstance(st, (ast.FunctionDef, ast.AsyncFunctionDef, ast.ClassDef)):
+                    for b in blocks_of(st):
+                        count_simple(b)
+        count_simple(fn.body)
         changed = False
 
         def do_block(blk):
@@ -43,10 +70,13 @@ def _process_function(fn):
                 if (isinstance(st, ast.Assign) and len(st.targets) == 1 and isinstance(st.targets[0], ast.Name) and not isinstance(nx, COMPOUND)
                         and not isinstance(st.value, (ast.Lambda, ast.Yield, ast.YieldFrom, ast.Await))):
                     x = st.targets[0].id
-                    if len(stores.get(x, [])) == 1 and len(loads.get(x, [])) == 1 and x not in nested_names:
-                        use = loads[x][0]
-                        if any(y is use for y in ast.walk(nx)) and not (isinstance(nx, ast.AugAssign) and nx.target is use):
-                            val = st.value
+                    # a temporary: every store of the name is such an assignment and every load is the single use that follows one
+                    # (one store and one load; or one name re-used for the same purpose in several branches)
+                    n_st, n_ld = len(stores.get(x, [])), len(loads.get(x, []))
+                    if n_st == n_ld == simple.get(x, 0) and n_st >= 1 and x not in nested_names:
+                        uses_here = [y for y in ast.walk(nx) if isinstance(y, ast.Name) and y.id == x and isinstance(y.ctx, ast.Load)]
+                        if len(uses_here) == 1:
+                            use, val = uses_here[0], st.value
 
                             class R(ast.NodeTransformer):
                                 def visit_Name(self, node):
@@ -55,24 +85,14 @@ def _process_function(fn):
                             del blk[i]
                             n += 1
                             changed = True
-                            # the counts are stale now: restart the scan of the function
-                            return True
+                            return True  # the counts are stale now: restart the scan of the function
                 i += 1
             for s in blk:
                 if isinstance(s, (ast.FunctionDef, ast.AsyncFunctionDef, ast.ClassDef)):
                     continue
-                for f in ("body", "orelse", "finalbody"):
-                    b = getattr(s, f, None)
-                    if isinstance(b, list) and b and isinstance(b[0], ast.stmt) and do_block(b):
+                for b in blocks_of(s):
+                    if do_block(b):
                         return True
-                if isinstance(s, ast.Try):
-                    for h in s.handlers:
-                        if do_block(h.body):
-                            return True
-                if isinstance(s, ast.Match):
-                    for c in s.cases:
-                        if do_block(c.body):
-                            return True
             return False
 
         do_block(fn.body)
